@@ -124,6 +124,7 @@ func (l *Listener) Accept() (net.Conn, error) {
 		if len(l.queue) > 0 {
 			c := l.queue[0]
 			l.queue = l.queue[1:]
+			c.accepted = true
 			return c, nil
 		}
 		l.waiters = append(l.waiters, t)
@@ -244,6 +245,8 @@ type Conn struct {
 	rdl    time.Time
 	wdl    time.Time
 	closed bool
+	// accepted is set on the server end when Listener.Accept returned it.
+	accepted bool
 	// Raw disables segmentation and delays for writes from this end (harness
 	// clients that script their own chunking use it).
 	Raw bool
@@ -468,6 +471,10 @@ func (c *Conn) Abort() {
 		t.Sim().Count("fault.conn_reset", 1)
 	}
 }
+
+// PeerAccepted reports whether the listener's Accept has returned the other
+// end of this connection.
+func (c *Conn) PeerAccepted() bool { return c.peer.accepted }
 
 // PeerClosed reports whether the other end has closed (or reset) the connection.
 func (c *Conn) PeerClosed() bool { return c.peer.closed || c.in.reset }
